@@ -182,6 +182,12 @@ func (p *Pool) Exec(req *wire.Request) (*wire.Result, error) {
 		}
 	}()
 	var a answer
+	t0 := time.Now()
+	defer func() {
+		if d := time.Since(t0); d > 2*time.Second && os.Getenv("VERIF_DEBUG_SLOW") != "" {
+			fmt.Fprintf(os.Stderr, "SLOW %.1fs run=%d req=%s\n", d.Seconds(), req.Run, string(js)[:min(len(js), 1500)])
+		}
+	}()
 	select {
 	case a = <-ch:
 	case <-time.After(p.Watchdog):
